@@ -87,7 +87,7 @@ var (
 	reHex   = regexp.MustCompile(`[0-9A-Fa-f]{16,}`)
 	reAddr  = regexp.MustCompile(`cosmos1[0-9a-z]{20,}`)
 	reNum   = regexp.MustCompile(`[0-9]+`)
-	reDenom = regexp.MustCompile(`\bhtlt[a-z]+\b|\bibc/HEX\b`)
+	reDenom = regexp.MustCompile(`htlt[a-z]+|ibc/[0-9A-Fa-f]+`)
 )
 
 // shape reduces an error text to its class: identifiers and numbers removed.
@@ -96,13 +96,18 @@ func shape(s string) string {
 	if i := strings.Index(s, " ["); i > 0 {
 		s = s[:i]
 	}
+	// which offending object a validation reports first can depend on map order: the class is
+	// the message up to the object's identity
+	if i := strings.Index(s, ", ID:"); i > 0 {
+		s = s[:i]
+	}
 	s = strings.TrimPrefix(s, "panic in InitChain: ")
 	s = strings.TrimPrefix(s, "panic in InitGenesis: ")
 	s = reAddr.ReplaceAllString(s, "ADDR")
+	s = reDenom.ReplaceAllString(s, "DENOM")
 	s = reHex.ReplaceAllString(s, "HEX")
 	s = reNum.ReplaceAllString(s, "N")
 	s = strings.Join(strings.Fields(s), " ")
-	s = reDenom.ReplaceAllString(s, "DENOM")
 	if len(s) > 60 {
 		s = s[:60]
 	}
